@@ -120,6 +120,11 @@ def cases(rng, tier, shard, nshards):
             yield FDICT, gen_case(rng)
         if k % 3 == 0:
             yield E2E, tplgen.gen_template(rng, focus="values")
+        if k % 12 == 5:
+            # instances of EVERY modelled class built from the live schema, with functions (resolvable or not) in every position
+            # typed Resolvable[...]: valid by construction, so the implementation must resolve them (agree is strict for these)
+            y = tplgen.gen_typed_template(rng, resolvable=True)
+            yield E2E, {"template": y["template"], "extra": y["extra"], "valid": True}
 
 
 def reproduce_known(f):
